@@ -68,9 +68,14 @@ type verifStream struct {
 	resets    int
 	writeFail bool
 	written   int
+
+	readDeadline, writeDeadline bool
 }
 
 func (s *verifStream) Read(p []byte) (int, error) {
+	// a peer may stall instead of closing: every read of the request must be
+	// bounded by a deadline, or the handler (and its resource slot) is wedged
+	nd.Assert(s.readDeadline, "request-is-read-under-a-deadline")
 	if s.pos >= len(s.in) {
 		return 0, io.EOF
 	}
@@ -79,6 +84,7 @@ func (s *verifStream) Read(p []byte) (int, error) {
 	return n, nil
 }
 func (s *verifStream) Write(p []byte) (int, error) {
+	nd.Assert(s.writeDeadline, "response-is-written-under-a-deadline")
 	if s.writeFail {
 		return 0, errors.New("stream write failed")
 	}
@@ -90,9 +96,12 @@ func (s *verifStream) CloseRead() error                 { return nil }
 func (s *verifStream) CloseWrite() error                { return nil }
 func (s *verifStream) Reset() error                     { s.resets++; return nil }
 func (s *verifStream) ResetWithError(network.StreamErrorCode) error { s.resets++; return nil }
-func (s *verifStream) SetDeadline(time.Time) error      { return nil }
-func (s *verifStream) SetReadDeadline(time.Time) error  { return nil }
-func (s *verifStream) SetWriteDeadline(time.Time) error { return nil }
+func (s *verifStream) SetDeadline(t time.Time) error {
+	s.readDeadline, s.writeDeadline = !t.IsZero(), !t.IsZero()
+	return nil
+}
+func (s *verifStream) SetReadDeadline(t time.Time) error  { s.readDeadline = !t.IsZero(); return nil }
+func (s *verifStream) SetWriteDeadline(t time.Time) error { s.writeDeadline = !t.IsZero(); return nil }
 func (s *verifStream) Scope() network.StreamScope       { return s.scope }
 func (s *verifStream) Conn() network.Conn               { return verifConn{} }
 
